@@ -88,7 +88,7 @@ Proof.
   set (PC := fun c' : cid => c' <> c). set (PR := fun _ : rid => True). set (PI := fun _ : item => True).
   assert (Hsafe : forall j ds, Forall (cov_rd st j) ds -> Forall (safe_rd st PC PR PI) ds).
   { intros j ds Hc. eapply Forall_impl; [|exact Hc]. intros x Hx.
-    destruct x as [m|c'|r|c' r]; simpl in *; try exact I.
+    destruct x as [m|c'|r|c' r|]; [| | | |simpl in *; contradiction]; simpl in *; try exact I.
     - destruct Hx as (He & Hm). split; [exact I|]. split; [now apply Hheld|exact Hm].
     - destruct (cv_edge _ C _ _ Hx) as (Hn & _). exact (Hno _ Hn). }
   assert (AG : Agree st (defs_of st') (input_data st') PC PR PI).
